@@ -36,6 +36,8 @@ PID = "C09"
 
 SLOTS = ("RF24", "RF24", "FakeBLE", "RF24Network", "RF24Mesh")  # the five objects of the property
 NET_ADDR = 0o1
+NET_B = (0xDB, (0xDD, 0x99, 0xB6, 0xD9, 0x9D, 0x66))  # docs/network_docs/topology.rst, network_b
+NET_DEFAULT = (0xCC, (0xC3, 0x3C, 0x33, 0xCE, 0x3E, 0xE3))  # documented defaults of address_prefix / address_suffix
 RADIO_MIXIN = ("channel", "power", "set_dynamic_payloads", "get_dynamic_payloads", "listen", "pa_level",
                "is_lna_enabled", "data_rate", "crc", "get_auto_retries", "set_auto_retries", "address",
                "interrupt_config")  # docs/network_docs/shared_api.rst "Accessible RF24 API" (configuration part)
@@ -111,8 +113,9 @@ def attach(world, radio, cname):
         o = H.RF24Network(spi, 0, radio.ce_pin, NET_ADDR)
         # a second network on the same radio uses its own physical addresses (docs/network_docs/topology.rst,
         # "2 separate networks": prefix / suffix of network_b, then node_address re-assigned)
-        o.address_prefix = bytearray([0xDB])
-        o.address_suffix = bytearray([0xDD, 0x99, 0xB6, 0xD9, 0x9D, 0x66])
+        # the prefix is changed in place and the suffix is assigned (both are the object's own attributes)
+        o.address_prefix[0] = NET_B[0]
+        o.address_suffix = bytearray(NET_B[1])
         o.node_address = NET_ADDR
         return o
     if cname == "RF24Mesh":
@@ -165,7 +168,9 @@ def foreign_addresses(obj, cname, radio):
     if cname not in ("RF24Network", "RF24Mesh"):
         return None
     from ..net import expected_pipes
-    exp = expected_pipes(obj.node_address, obj.multicast_level, bool(obj.allow_multicast), obj.address_prefix[0], tuple(obj.address_suffix))
+    # prefix / suffix as the harness gave them to THIS object (not read back from it: objects must not share them)
+    prefix, suffix = NET_B if cname == "RF24Network" else NET_DEFAULT
+    exp = expected_pipes(obj.node_address, obj.multicast_level, bool(obj.allow_multicast), prefix, tuple(suffix))
     got = [radio.pipe_addr(p) for p in range(6)]
     lo = 0 if radio.prx() else 1  # pipe 0 holds the TX address while the object is not listening
     bad = [p for p in range(lo, 6) if got[p] != exp[p]]
